@@ -3,6 +3,7 @@ package main
 // Per-instruction semantics.
 
 import (
+	"strings"
 	"fmt"
 	"go/token"
 	"go/types"
@@ -233,6 +234,7 @@ func (x *Exec) execInstr(fr *Frame, b *ssa.BasicBlock, ins ssa.Instruction, st *
 		}
 		if fr == fr.top {
 			x.returnAsserts(fr, st, i)
+			x.lockBalanced(fr, st, i)
 		}
 		fr.rets = append(fr.rets, RetSite{St: st.clone(), Results: rs})
 	case *ssa.Panic:
@@ -621,8 +623,8 @@ func (x *Exec) convert(fr *Frame, st *State, i *ssa.Convert) Value {
 		// string(bytes): copy
 		arr := x.vc.fresh("str", SArr(m.ixSort(), m.intSort(IntTy{8, false})))
 		k := Sym("k!v", m.ixSort())
-		elem := x.loadLocT(st, &Loc{Prefix: v.Loc.Prefix, Root: v.Loc.Root, Elems: appendTerm(v.Loc.Elems, x.ixAdd(v.Off, k)), T: v.Loc.T}, v.Loc.T)
-		x.vc.assume(Forall([][2]string{{"k!v", m.ixSort()}}, Implies(And(m.cmp(token.LEQ, m.ix(0), k, ixT), m.cmp(token.LSS, k, v.Len, ixT)), Eq(Select(arr, k), elem.X))))
+		elemX := x.srcElemLeaves(st, v, k)[0]
+		x.vc.assume(Forall([][2]string{{"k!v", m.ixSort()}}, Implies(And(m.cmp(token.LEQ, m.ix(0), k, ixT), m.cmp(token.LSS, k, v.Len, ixT)), Eq(Select(arr, k), elemX))))
 		return Value{K: KString, X: arr, Len: v.Len}
 	case kindOf(i.Type()) == KSlice && v.K == KString:
 		e := i.Type().Underlying().(*types.Slice).Elem()
@@ -718,5 +720,43 @@ func (x *Exec) assumeGlobalInvsAt(fr *Frame, st *State, g *ssa.Global) {
 			continue
 		}
 		x.vc.assume(Implies(st.Reach, t))
+	}
+}
+
+// lockBalanced: a function under contract that itself locks or unlocks a mutex returns with every
+// mutex in the state it found it (callers rely on this: a call never changes the ghost lock state).
+func (x *Exec) lockBalanced(fr *Frame, st *State, ret *ssa.Return) {
+	direct := false
+	for _, b := range fr.fn.Blocks {
+		for _, ins := range b.Instrs {
+			var cc *ssa.CallCommon
+			switch c := ins.(type) {
+			case *ssa.Call:
+				cc = c.Common()
+			case *ssa.Defer:
+				cc = c.Common()
+			}
+			if cc == nil {
+				continue
+			}
+			if callee := cc.StaticCallee(); callee != nil {
+				if _, ok := stubEffectTable[callee.String()]; ok && (strings.HasPrefix(callee.String(), "(*sync.Mutex).") || strings.HasPrefix(callee.String(), "(*sync.RWMutex).")) {
+					direct = true
+				}
+			}
+		}
+	}
+	if !direct {
+		return
+	}
+	for _, k := range sortedKeys(st.H) {
+		if !strings.HasPrefix(k, "Lock.") {
+			continue
+		}
+		entry, ok := fr.entry.H[k]
+		if !ok {
+			entry = x.vc.decl("H0."+k, st.H[k].S)
+		}
+		x.vc.oblige("lock.balanced", Implies(st.Reach, Eq(st.H[k], entry)), x.posOf(fr.fn, ret.Pos()), "every mutex is returned in the state it was found in ("+strings.TrimPrefix(k, "Lock.")+")")
 	}
 }
